@@ -248,7 +248,8 @@ def file_for_model(content):
     env = None
     if isinstance(content, dict) and "payload" in content and content.get("payloadType") == PAYLOAD_TYPE:
         try:
-            body = base64.b64decode(content["payload"], validate=False) if isinstance(content["payload"], str) else None
+            # (strictly, as the implementation's decoder: a character outside the alphabet makes the envelope unloadable)
+            body = base64.b64decode(content["payload"], validate=True) if isinstance(content["payload"], str) else None
             if body is None:
                 raise ValueError
             text = body.decode("utf8")
@@ -258,7 +259,7 @@ def file_for_model(content):
                 pj = None
             sigs = []
             for s in content["signatures"]:
-                sigs.append([s["keyid"], base64.b64decode(s["sig"]).hex()])
+                sigs.append([s["keyid"], base64.b64decode(s["sig"], validate=True).hex()])
             env = {"text": text, "json": pj, "sigs": sigs}
         except Exception:  # pylint: disable=broad-except
             env = None
